@@ -185,3 +185,18 @@ type simpleErr struct{ s string }
 func (e *simpleErr) Error() string { return e.s }
 
 var errCT = &simpleErr{"create transport failed"}
+
+func mustURL(s string) *url.URL {
+	u, err := url.Parse(s)
+	if err != nil {
+		panic(err)
+	}
+	return u
+}
+
+func readAllOf(v any) []byte {
+	if b, ok := v.(interface{ Bytes() []byte }); ok {
+		return b.Bytes()
+	}
+	return nil
+}
